@@ -37,9 +37,11 @@ struct Task {
     uint64_t next_pre = 0;   // absolute edge count at which to pre-empt (0 = none)
     int cur_op = -1;         // index of the op being executed
     bool in_call = false;    // inside a PKCS#11 call
+    bool ret_yield = false;  // the yield right after a PKCS#11 call of this task returned (what long pre-emptions count)
     bool in_act = false;     // inside a composite harness action (atomic under the 'call' policy)
     int yord = 0;            // yield ordinal inside the current op
-    std::vector<int> ymutex;   // per op: yield ordinals that are mutex operations (placement of long pre-emptions)
+    std::vector<int> ymutex;   // per op: a uniform sample (reservoir, <= 96) of the yield ordinals that are mutex operations (placement of long pre-emptions)
+    uint64_t ymutex_seen = 0, ymutex_lcg = 1;
     int wmax_nth = -1; long wmax_size = 0;   // per op: ordinal and size of the largest write(2) request (fault placement)
     long parked_until = -1;  // parked (see Run::parks) until R.call_yields reaches this value
     std::map<std::string, int> fs_nth;  // per op: fs kind -> ordinal
